@@ -203,7 +203,22 @@ pub fn run(p: &Params) -> Report {
                     _ => cur_epoch + 3,
                 };
                 let v = 1 + r.below((avail / 2).min(1 << 40) as u64) as u128;
-                let staked = if r.chance(1, 6) { v + 1 } else { v };
+                // declared amount: equal, or unequal in a way a narrower or sloppier comparison could miss (off by one, by a
+                // multiple of 2^32 / 2^64 / 2^127, doubled, zero)
+                let staked = if r.chance(1, 4) {
+                    match r.below(8) {
+                        0 => v + 1,
+                        1 => v.saturating_sub(1),
+                        2 => v + (1u128 << 64) * (1 + r.below(5) as u128),
+                        3 => v + (1u128 << 32),
+                        4 => v | (1u128 << 127),
+                        5 => v * 2,
+                        6 => 0,
+                        _ => v + ((r.next() as u128) << 64),
+                    }
+                } else {
+                    v
+                };
                 let o = r.usize(4);
                 let doc = StakeDoc { pubkey: w.owners[o].key.pk, e_start: s, e_post_end: en, syms_staked: CoinValue(staked) };
                 let variant = r.below(10);
